@@ -43,6 +43,8 @@ Bad == { ECmp("==", AtWild, One), ECmp("==", One, OQ(Q("@", <<Descend(SName(a_))
          ECmp("==", OFn("count", <<OFn("value", <<AtWild>>)>>), One), ECmp("==", OFn("length", <<OFn("match", <<At1(a_), ReA>>)>>), One),
          ECmp("==", OFn("count", <<Expr(ECmp("==", At1(a_), One))>>), One), EFTest("match", <<At1(a_), Expr(ECmp("==", At1(b_), One))>>),
          ECmp("==", OFn("value", <<OFn("count", <<AtWild>>)>>), One),
+         \* the offender on the right of a singular query (each operand is checked, not only the first)
+         ECmp("==", At1(a_), AtWild), ECmp("!=", At1(a_), OFn("match", <<At1(b_), ReA>>)), ECmp("<", OQ(Q("$", <<Child(SName(b_)), Child(SIndex(0))>>)), OQ(Q("@", <<Descend(SName(a_))>>))),
          \* a parenthesised argument is a logical expression (RFC 9535 2.4: paren-expr), which none of the five functions takes
          ECmp("==", OFn("length", <<Expr(Paren(ETest(Q("@", <<Child(SName(a_))>>))))>>), One),
          ECmp("==", OFn("count", <<Expr(Paren(ETest(Q("@", <<Child(SWild)>>))))>>), One),
